@@ -4,52 +4,32 @@
    a partial and a full process_target. *)
 From Coq Require Import List Bool Arith Lia Sorted.
 Import ListNotations.
-Require Import PonyV.Model.C03Bexp PonyV.Model.C03Decomp PonyV.Model.C03Family PonyV.Proofs.C03Checker PonyV.Proofs.C03Roundtrip.
+Require Import PonyV.Model.C03Bexp PonyV.Model.C03Decomp PonyV.Model.C03Family PonyV.Proofs.C03Checker PonyV.Proofs.C03Roundtrip PonyV.Proofs.C03RoundtripCnf.
 
 Definition pos_lits (ts : list nat) : list lit := map (Lit false) ts.
 
 (* ------------------------------------------------------------------ code shape *)
-Lemma comp_and_fwd_false : forall ls p t,
-  comp_and true (TAt t) (TAt t) false (map lit_bexp ls) p = chain_code (mk_jump false t) ls.
-Proof.
-  induction ls as [|[neg n] r IH]; intros p t; [reflexivity|].
-  destruct r as [|y s].
-  - cbn [map comp_and chain_code mk_jump]. rewrite comp_lit. destruct neg; reflexivity.
-  - change (map lit_bexp (Lit neg n :: y :: s)) with (lit_bexp (Lit neg n) :: lit_bexp y :: map lit_bexp s).
-    rewrite comp_and_cons2, comp_lit. change (lit_bexp y :: map lit_bexp s) with (map lit_bexp (y :: s)).
-    rewrite IH. destruct neg; reflexivity.
-Qed.
+Lemma lws_pos_lits : forall ts, lws (pos_lits ts) = 2 * length ts.
+Proof. induction ts as [|t r IH]; [reflexivity|]. cbn [pos_lits map lws length] in *. fold (pos_lits r). rewrite IH. cbn. lia. Qed.
 
 Lemma map_lit_pos : forall ts, map lit_bexp (pos_lits ts) = map Atom ts.
 Proof. intro ts. unfold pos_lits. rewrite map_map. reflexivity. Qed.
 
-Lemma comp_test : forall ts p t, ts <> [] -> comp true (mk_and_atoms ts) p (TAt t) false = chain_code (mk_jump false t) (pos_lits ts).
+Lemma comp_test : forall ts p t, ts <> [] -> comp true (mk_and_atoms ts) p (TAt t) false = chain_code false (TAt t) (pos_lits ts).
 Proof.
   intros ts p t H. destruct ts as [|a [|b r]]; [congruence| |].
   - reflexivity.
-  - unfold mk_and_atoms. rewrite comp_And. rewrite <- map_lit_pos. apply comp_and_fwd_false.
+  - unfold mk_and_atoms. rewrite comp_And. rewrite <- map_lit_pos. apply comp_and_chain.
 Qed.
 
 Lemma elen_test : forall ts, ts <> [] -> elen true (mk_and_atoms ts) = 2 * length ts.
 Proof.
   intros ts H. destruct ts as [|a [|b r]]; [congruence|reflexivity|].
-  unfold mk_and_atoms. rewrite elen_And, <- map_lit_pos, elen_list_lits. unfold pos_lits. rewrite map_length. reflexivity.
+  unfold mk_and_atoms. rewrite elen_And, <- map_lit_pos, elen_list_lits. apply lws_pos_lits.
 Qed.
 
 Definition if_stream (ts : list nat) (xa xb : nat) : list instr :=
-  chain_code (mk_jump false (2 * length ts + 4)) (pos_lits ts) ++ [ILoad xa; IFwd (2 * length ts + 5); ILoad xb; IYield].
-
-Lemma length_chain_code : forall mk ls, length (chain_code mk ls) = 2 * length ls.
-Proof. intros mk ls. induction ls as [|[neg n] r IH]; [reflexivity|]. cbn [chain_code length]. rewrite IH. lia. Qed.
-
-Lemma chain_no_fwd_at : forall mk ls k t, (forall neg t', mk neg <> IFwd t') -> nth_error (chain_code mk ls) k <> Some (IFwd t).
-Proof.
-  intros mk ls. induction ls as [|[neg n] r IH]; intros k t Hmk H; [destruct k; discriminate H|].
-  cbn [chain_code] in H. destruct k as [|[|k]]; cbn [nth_error] in H.
-  - discriminate H.
-  - injection H as H. exact (Hmk _ _ H).
-  - exact (IH k t Hmk H).
-Qed.
+  chain_code false (TAt (2 * length ts + 4)) (pos_lits ts) ++ [ILoad xa; IFwd (2 * length ts + 5); ILoad xb; IYield].
 
 Lemma compile_if_and : forall ts xa xb, ts <> [] -> compile PElt (if_and ts xa xb) = if_stream ts xa xb.
 Proof.
@@ -63,13 +43,15 @@ Proof.
   (* jump threading: no jump of this stream lands on a JUMP_FORWARD *)
   unfold thread. transitivity (map (fun i : instr => i) (if_stream ts xa xb)); [|apply map_id].
   apply map_ext_in. intros ins Hin. destruct (target_of ins) as [t|] eqn:Et; [|reflexivity].
-  assert (Hlen : length (chain_code (mk_jump false (2 * length ts + 4)) (pos_lits ts)) = 2 * length ts).
-  { rewrite length_chain_code. unfold pos_lits. rewrite map_length. reflexivity. }
+  assert (Hlen : length (chain_code false (TAt (2 * length ts + 4)) (pos_lits ts)) = 2 * length ts).
+  { rewrite length_chain. apply lws_pos_lits. }
   assert (Hft : final_target (length (if_stream ts xa xb)) (if_stream ts xa xb) t = t).
   { assert (Ht : t = 2 * length ts + 4 \/ t = 2 * length ts + 5).
     { unfold if_stream in Hin. apply in_app_or in Hin. destruct Hin as [Hin|Hin].
-      - left. clear - Hin Et. induction (pos_lits ts) as [|[neg n] r IH]; [destruct Hin|].
-        cbn [chain_code In] in Hin. destruct Hin as [<-|[<-|Hin]]; [discriminate Et | cbn in Et; injection Et as <-; reflexivity | exact (IH Hin)].
+      - left. clear - Hin Et. revert Hin. generalize (2 * length ts + 4) as tt. intro tt.
+        induction ts as [|n r IH]; intro Hin; [destruct Hin|].
+        cbn [pos_lits map chain_code lval ljmp jump_to app In] in Hin. fold (pos_lits r) in Hin.
+        destruct Hin as [<-|[<-|Hin]]; [discriminate Et | cbn in Et; injection Et as <-; reflexivity | exact (IH Hin)].
       - right. destruct Hin as [<-|[<-|[<-|[<-|[]]]]]; try discriminate Et. cbn in Et. injection Et as <-. reflexivity. }
     destruct (length (if_stream ts xa xb)) as [|fuel]; [reflexivity|]. cbn [final_target].
     unfold if_stream. destruct Ht as [-> | ->].
@@ -92,7 +74,7 @@ Qed.
 Lemma run_chain0 : forall t ts rest i s,
   (forall k, k <= 2 * length ts -> has_target s (pos_of (i + k)) = false) ->
   (forall k, k <= 2 * length ts -> t <> pos_of (i + k)) ->
-  run [] 0 [] (chain_code (mk_jump false t) (pos_lits ts) ++ rest) i s =
+  run [] 0 [] (chain_code false (TAt t) (pos_lits ts) ++ rest) i s =
   run [] 0 [] rest (i + 2 * length ts)
       (mkState (rev (cl false t (chain_items (nextid s) (pos_lits ts))) ++ stack s)
                (match ts with [] => targets s | _ => tsetdefault (targets s) t (nextid s) end)
@@ -100,15 +82,15 @@ Lemma run_chain0 : forall t ts rest i s,
 Proof.
   intros t ts. induction ts as [|n r IH]; intros rest i s Hnt Htt.
   - cbn [pos_lits map chain_code app length chain_items combine seq cl rev]. rewrite !Nat.add_0_r. destruct s; reflexivity.
-  - cbn [pos_lits map chain_code app]. fold (pos_lits r).
+  - cbn [pos_lits map chain_code lval ljmp jump_to app]. fold (pos_lits r).
     assert (H0 : has_target s (pos_of i) = false) by (rewrite <- (Nat.add_0_r i); apply Hnt; lia).
     assert (H1 : has_target s (pos_of (S i)) = false) by (replace (S i) with (i + 1) by lia; apply Hnt; cbn [length]; lia).
     assert (H2 : has_target s (pos_of (S (S i))) = false) by (replace (S (S i)) with (i + 2) by lia; apply Hnt; cbn [length]; lia).
     rewrite (run_cons [] 0 (ILoad n) _ i s (push (DAtom 0 0 n) s) eq_refl (step_load [] 0 n i s H0)).
-    assert (Hstep : step [] 0 [] (mk_jump false t false) (S i) (push (DAtom 0 0 n) s) =
+    assert (Hstep : step [] 0 [] (IJump false t) (S i) (push (DAtom 0 0 n) s) =
                     Some (mkState (DBool (nextid s) t false [DAtom 0 0 n] :: stack s) (tsetdefault (targets s) t (nextid s)) (S (nextid s)))).
-    { unfold step. rewrite has_target_push, H1. cbn [mk_jump]. apply cond_jump_after_ce. exact H2. }
-    rewrite (run_cons [] 0 (mk_jump false t false) _ (S i) _ _ eq_refl Hstep).
+    { unfold step. rewrite has_target_push, H1. apply cond_jump_after_ce. exact H2. }
+    rewrite (run_cons [] 0 (IJump false t) _ (S i) _ _ eq_refl Hstep).
     rewrite IH.
     + cbn [stack targets nextid length]. f_equal; [lia|].
       change (pos_lits (n :: r)) with (Lit false n :: pos_lits r). rewrite chain_items_cons. unfold cl. cbn [map rev fst snd dlit]. rewrite <- app_assoc. cbn [app].
@@ -127,22 +109,16 @@ Proof.
 Qed.
 
 (* ------------------------------------------------------------------ the stream has no condition part *)
-Lemma ce_chain_fwd : forall t ls i acc, ce_from (chain_code (mk_jump false t) ls) i acc = acc.
-Proof. intros t ls. induction ls as [|[neg n] r IH]; intros i acc; [reflexivity|]. cbn [chain_code ce_from mk_jump is_back]. apply IH. Qed.
-
-Lemma no_copy_chain : forall t ls, ~ In ICopy (chain_code (mk_jump false t) ls).
-Proof. intros t ls. induction ls as [|[neg n] r IH]; intro H; [exact H|]. cbn [chain_code mk_jump] in H. destruct H as [H|[H|H]]; try discriminate. exact (IH H). Qed.
-
 Lemma analysis_if_stream : forall ts xa xb,
   conditions_end (if_stream ts xa xb) = 0 /\ or_jumps (if_stream ts xa xb) = [] /\ value_jumps (if_stream ts xa xb) = [].
 Proof.
   intros ts xa xb.
   assert (Hce : conditions_end (if_stream ts xa xb) = 0).
-  { unfold if_stream. rewrite conditions_end_from, ce_from_app, ce_chain_fwd. reflexivity. }
+  { unfold if_stream. rewrite conditions_end_from, ce_from_app, ce_from_chain_fwd. reflexivity. }
   split; [exact Hce|]. split.
   - unfold or_jumps. rewrite Hce. reflexivity.
   - rewrite value_jumps_from. apply vj_from_no_copy. unfold if_stream. intro H. apply in_app_or in H.
-    destruct H as [H|[H|[H|[H|[H|[]]]]]]; try discriminate H. exact (no_copy_chain _ _ H).
+    destruct H as [H|[H|[H|[H|[H|[]]]]]]; try discriminate H. exact (no_copy_chain _ _ _ H).
 Qed.
 
 (* partial process_target stops at once on a clause that is pending at the processed position *)
